@@ -45,6 +45,41 @@ def with_comments(p, salt):
     return "\n".join(lines) + "\n", n
 
 
+STRESS_REPL = ["kf(2, 3)", "(n + 1)", "g('a b', \"a b\")", "1.5e-3"]
+
+
+def stressed_variants(p, limit):
+    """Metamorphic placeholder stress: the statement carrying the non-default catalogue variant is rewritten with ONE
+    integer literal or one bracketed simple name replaced by a bracketed / quoted / exponent expression.  Whether the
+    result is still valid Fortran is not known - the laws are claimed only if the first parse accepts it (the
+    placeholder mechanism must be lossless for whatever the rule classes accept)."""
+    from .. import perturb
+    out = []
+    rich = [i for i, r in enumerate(p["out"]) if r["v"] > 1 and r["k"] in ("s", "decl", "comp", "use", "tbind")]
+    for i in rich[:1]:
+        st = p["stmts"][i]
+        toks = perturb.layout_tokens(st["text"])
+        slots = []
+        depth = 0
+        for j, (t, sp) in enumerate(toks):
+            if t in "([":
+                depth += 1
+            elif t in ")]":
+                depth -= 1
+            elif t.isdigit() and j > 0 and toks[j - 1][0] not in ("*", "=>") and not (j == 1 and toks[0][0].lower() in ("goto", "go")):
+                slots.append(j)
+            elif depth > 0 and t.isidentifier() and t.lower() not in ("kind", "len", "unit", "fmt", "file", "stat", "iostat", "err", "end", "status") \
+                    and (j + 1 >= len(toks) or toks[j + 1][0] not in ("(", "=", "%")) and toks[j - 1][0] in ("(", ",", "=", ":"):
+                slots.append(j)
+        for n_, j in enumerate(slots[:limit]):
+            new = list(toks)
+            new[j] = (STRESS_REPL[(n_ + i) % len(STRESS_REPL)], toks[j][1])
+            stmts = list(p["stmts"])
+            stmts[i] = dict(st, text=perturb.join_tokens(new))
+            out.append(render.free_text(stmts))
+    return out
+
+
 def cases_for(prop, progs, tier="thorough"):
     cases = []
     quick = tier == "quick"
@@ -60,6 +95,9 @@ def cases_for(prop, progs, tier="thorough"):
         if prop == "C02":
             cfgs = [(s, True, False) for s in stds]
             cases.append({"id": p["id"], "src": p["src"], "cfgs": cfgs, "want": WANT[prop], "variant": "plain"})
+            if p["fam"] == "sweep":
+                for src2 in stressed_variants(p, 3 if quick else 12):
+                    cases.append({"id": p["id"], "src": src2, "cfgs": [(stds[-1], True, False)], "want": WANT[prop], "variant": "stress", "conditional": True})
             continue
         if prop in ("C01", "C10"):
             cfgs = [(s, True, False) for s in stds]
@@ -113,7 +151,8 @@ def events_for(prop, case, r, D, tree_ctr):
         if prop == "C01":
             ev.append({"e": "claim", "law": "fixpoint", "src": s0, "cfg": _cfgid(cfg)})
         elif prop == "C02":
-            ev.append({"e": "claim", "law": "tokens", "src": s0, "cfg": _cfgid(cfg)})
+            if not case.get("conditional") or run["o"]["res"] == "ok":
+                ev.append({"e": "claim", "law": "tokens", "src": s0, "cfg": _cfgid(cfg)})
         elif prop == "C10":
             ev.append({"e": "claim", "law": "accept", "src": s0, "cfg": _cfgid(cfg)})
         elif prop == "C18":
@@ -217,6 +256,10 @@ def run(prop, tier=None, replay=None):
                         chk.violation(sig, "C10: %s tree of program %d not well formed: %s\n%s" % (where, c["id"], w[:3], c["src"][:400]),
                                       {"case": {k: c[k] for k in c if k != "stmts"}, "problems": w})
         classes.update(r.get("classes", ()))
+    if prop == "C02":
+        st = [(c, r) for c, r in zip(cases, results) if c.get("variant") == "stress"]
+        chk.cov["stress_variants"] = len(st)
+        chk.cov["stress_variants_accepted"] = sum(1 for c, r in st if r["runs"] and r["runs"][0]["o"]["res"] == "ok")
     if prop == "C02" and not replay:
         from . import tokenise
         tokenise.run_part(chk, tier)
